@@ -5,7 +5,7 @@
      then one statement text per line, as hex of its UTF-8 bytes (decoded by the extracted `decode`)
    stdout, one line per text, in the canonical form of harness/src/bin/gv_lex.rs:
      OK <tok>;<tok>;..   tok = <kind>,<hex of text>,<start_idx>,<line>,<col>[,<keyword index | ->]
-     ERR <code point> | PANIC | FUEL | NOTUTF8
+     ERR <code point> | ERRQ <code point of the quote> | PANIC | FUEL | NOTUTF8
    The two tables are INPUT DATA (dumped from the std the engine is built with by `gv_lex classes`); the
    lookup below is the only thing computed outside the extracted code. *)
 let parse_ranges (l : string) : (int * int) array =
@@ -101,7 +101,8 @@ let () =
         | Some q ->
           (match tokenize is_alpha is_numeric q with
            | Ok (toks, _) -> "OK " ^ String.concat ";" (List.map render toks)
-           | Err c -> "ERR " ^ string_of_n c
+           | Err (Unhandled c) -> "ERR " ^ string_of_n c
+           | Err (Unterminated qc) -> "ERRQ " ^ string_of_n qc
            | Panic -> "PANIC"
            | Fuel -> "FUEL") in
       print_string out; print_char '\n'
